@@ -120,7 +120,7 @@ Qed.
 Definition mon_of (s : sys) : mon := mkMon (s_net s) (s_pend s) (dump_all (g_np g) (s_ps s)).
 
 Definition advanced (ps : pstore) (d : Z) : pstore :=
-  mkPS (a_advance (ps_book ps) d) (ps_protos ps) (ps_keys ps) (ps_meta ps) (ps_maxprotos ps).
+  mkPS (a_advance (ps_book ps) d) (ps_protos ps) (ps_keys ps) (ps_meta ps) (ps_maxprotos ps) (ps_pcap ps).
 
 Inductive shape (s : sys) (o : op) (s' : sys) (mo : sobs) : Prop :=
 | ShQuiet :
